@@ -123,6 +123,14 @@ def judge_file(ctx, path, what, rc, out):
             if not b["why"]:
                 continue
         if "HARNESS-PRECONDITION" in b["why"]:
+            # after a rejected event the objects of this history may be corrupt (e.g. a wrapped
+            # write_size): the driver's own view of what is valid then no longer matches the spec's.
+            # Only a precondition failure in a history without an earlier rejection is a harness bug.
+            start = b["l"] - 1
+            while start > 0 and '"e":"reset"' not in lines[start]:
+                start -= 1
+            if any(start < x["l"] < b["l"] and x is not b for x in bad):
+                continue
             raise vlib.Infra("harness emitted an operation outside the API precondition at line %d of %s" % (b["l"], path))
         hist = vlib.history_of(lines, b["l"])
         ev = json.loads(lines[b["l"] - 1])
